@@ -67,6 +67,25 @@ func (h *HelperCall) run() string {
 		return valid.GetTimeFmt(int8(len(h.Arg)), strings.Split(h.Arg, ",")...)
 	case "strescape":
 		return valid.StrEscape(h.Arg + "'\"\n")
+	case "urlforfn":
+		// validators that are given a function but NO rule set: they have nothing to judge by, whatever
+		// other calls brought along
+		if err := valid.UrlForFn("http://h.x/p?k=&id=&z=abc", "cfn1", customFn("call", "cfn1")); err != nil {
+			return "UrlForFn: " + err.Error()
+		}
+		return "UrlForFn: <nil>"
+	case "norules":
+		out := ""
+		if err := valid.NewVMap().Valid(map[string]string{"k": "", "id": ""}); err != nil {
+			out += "VMap: " + err.Error()
+		}
+		if err := valid.NewVUrl().Valid("http://h.x/p?k=&id="); err != nil {
+			out += " VUrl: " + err.Error()
+		}
+		if err := valid.NewVVar().Valid("abc"); err != nil {
+			out += " VVar: " + err.Error()
+		}
+		return out
 	}
 	return ""
 }
